@@ -348,9 +348,27 @@ pub fn c07() -> TreeProp {
     id: "C07",
     gen: Box::new(|rng, thorough| {
       let cfg = GenCfg { max_repl: 3, ..GenCfg::wild(if thorough { 4 } else { 3 }) };
-      let t = TreeGen::new().tree(rng, &cfg, cfg.depth, false);
+      let mut t = TreeGen::new().tree(rng, &cfg, cfg.depth, false);
+      // now and then children at the sizes where I/O code switches strategy (a child of 8 KiB or more after and before small ones,
+      // also beneath a ReplaceSource / CachedSource: seed S118)
+      let big_case = rng.chance(40);
+      if big_case {
+        let n = [8191usize, 8192, 8193, 9000, 16384][rng.below(5)];
+        let big: String = (0..n).map(|i| if i % 61 == 60 { '\n' } else { (b'a' + (i % 26) as u8) as char }).collect();
+        let kids = vec![(false, T::Raw("head;".into())), (false, if rng.chance(2) { T::Raw(big) } else { T::Orig(big, "big.js".into()) }), (false, T::RawStr("tail".into()))];
+        t = match rng.below(3) { 0 => T::Concat(kids), 1 => T::Replace(Box::new(T::Concat(kids)), vec![]), _ => T::Cached(901, Box::new(T::Concat(kids))) };
+      }
+      // … and byte-backed raw children that cut a multi-byte text at arbitrary byte positions (the lossy decoding of a concatenation
+      // is not the concatenation of the lossy decodings: seed S117)
+      if !big_case && rng.chance(25) {
+        let text = ["a€b😀c", "é日x", "😀😀", "x€"][rng.below(4)].as_bytes().to_vec();
+        let mut cuts: Vec<usize> = (0..1 + rng.below(3)).map(|_| rng.below(text.len() + 1)).collect(); cuts.push(0); cuts.push(text.len()); cuts.sort(); cuts.dedup();
+        let kids: Vec<(bool, T)> = cuts.windows(2).map(|w| (false, if rng.chance(2) { T::RawB(text[w[0]..w[1]].to_vec()) } else { T::RawBuf(text[w[0]..w[1]].to_vec()) })).collect();
+        t = T::Concat(kids);
+      }
       let len = ref_buf(&t).len();
       let mut ops = vec![Op::Src, Op::Buffer, Op::Size, Op::Rope];
+      if big_case { for k in [0usize, 4, 5, 6, 8190, 8191, 8192, 8196, 8197, 8198, len - 1, len, len + 1] { ops.push(Op::Writer(k.min(len + 1))); } return single(t, ops, "C07") }
       let maxk = if thorough { len + 1 } else { (len + 1).min(40) };
       if len + 1 <= maxk { for k in 0..=len { ops.push(Op::Writer(k)); } } else { for _ in 0..maxk { ops.push(Op::Writer(rng.below(len + 2))); } ops.push(Op::Writer(len)); }
       single(t, ops, "C07")
